@@ -40,7 +40,7 @@ PROPS = {
         ],
         expect_probes=["generation_ended_with_fragment", "fragment_then_truncate", "fragment_then_rename-rotate", "fragment_then_copy-truncate", "fragment_then_delete", "fragment_then_stop"],
         real=["tailer.Tailer (AddPattern, pollers, TailPath, forwarders, shutdown)", "logstream.fileStream", "logstream.LineReader", "kernel filesystem (real files)", "Go time (fake clock of the bubble)"],
-        stub=["waker.Waker (simulated: ticks are controller actions)"],
+        stub=["waker.Waker (simulated ticks as controller actions in 4 runs of 5; mtail's real timed waker under the fake clock in the fifth)"],
     ),
     "C09": dict(
         level="exploration",
@@ -93,7 +93,7 @@ PROPS = {
         ],
         expect_probes=["two_or_more_tailed", "create", "delete", "rename", "replace", "recreate_between_pattern_polls", "directory_change", "directory_matching_pattern"],
         real=["tailer.Tailer (AddPattern, Ignore, pollLogPattern, doPatternGlob, TailPath, forwarder/removal)", "logstream.fileStream", "kernel filesystem", "log_count expvar"],
-        stub=["waker.Waker (simulated ticks)"],
+        stub=["waker.Waker (simulated ticks in 4 runs of 5; mtail's real timed waker under the fake clock in the fifth)"],
     ),
     "C12": dict(
         level="fault_enumeration",
@@ -212,7 +212,7 @@ PROPS = {
                      "reloads are requested through LoadAllPrograms via a generated accessor (verif build tag) for the server's runtime"],
         expect_probes=["fragment_flushed_as_line", "runtime_error_strtol", "runtime_error_div0", "prog_valid", "prog_broken", "prog_refused", "prog_removed", "rotate", "truncate", "delete_log"],
         real=["mtail.Server (New, Run)", "tailer + file streams", "runtime + VMs", "exporter.New (no push)", "expvar counters"],
-        stub=["waker.Waker (simulated ticks)"],
+        stub=["waker.Waker (simulated ticks in 4 runs of 5; mtail's real timed waker under the fake clock in the fifth)"],
     ),
     "C17": dict(
         level="exploration",
